@@ -10,8 +10,9 @@ RULES = {
     "C16": "Each case is one simulated session: 1-4 clients issue LayeredArchitecture / LayerRule "
            "builder calls (sequences enumerated from the reference model up to length 6 by plan "
            "index, plus seeded random longer ones), interleaved call by call by a seeded schedule, "
-           "some clients go on using their object after a rejected call, "
-           "executed under >=2 interpreter hash seeds. Distinct = distinct sha256 of the "
+           "some clients go on using their object after a rejected call, some keep, change and pass "
+           "again the list objects they hand to containing_modules (F14; judged by what a list held at "
+           "the call), executed under >=2 interpreter hash seeds. Distinct = distinct sha256 of the "
            "(client, op, method, object, argument form) schedule; non-trivial = the session "
            "executed at least one call the model says must be rejected or interleaved two clients.",
     "C15": "Each case is one simulated pytest-like session on shared evaluables: seeded world (tree, "
@@ -19,9 +20,11 @@ RULES = {
            "rules under a seeded schedule with re-application, cross-architecture reuse, argument "
            "permutation, rescans under shuffled readdir order, failing predecessors, evaluations and "
            "scans cancelled at a chosen line inside the library (F12), short-lived evaluables and rule "
-           "objects whose id() is handed to their successors (F13), executed under >=2 interpreter "
-           "hash seeds and compared with isolated evaluations. Distinct = distinct schedule digest; "
-           "non-trivial = at least one perturbation (F1-F13) took effect and at least one evaluation "
+           "objects whose id() is handed to their successors (F13), builder calls that share one list "
+           "object per distinct name list (F14), scans and diagram-rule evaluations under which the disk "
+           "fails once (F15: the k-th listing or the k-th file read raises OSError), executed under >=2 "
+           "interpreter hash seeds and compared with isolated evaluations. Distinct = distinct schedule "
+           "digest; non-trivial = at least one perturbation (F1-F15) took effect and at least one evaluation "
            "reached a verdict.",
     "C13": "Each case is one simulated session of 1-4 clients issuing fluent-API call chains "
            "(single mutations of complete chains, random chains, complete chains with unknown "
@@ -41,6 +44,12 @@ ASSUMPTIONS = [
     "C15 only: builtins.id is wrapped so that evaluables / rule objects (and library objects two "
     "attribute hops below them) report simulated ids; a slot freed by a `drop` step goes to the next "
     "object of that type (real address reuse is not reproducible across processes)",
+    "C15 only: under a request marked for it, builtins.open / io.open or os.listdir / os.scandir raise "
+    "OSError (EIO, EACCES or EMFILE) once, at the k-th read or listing below the scratch root; the "
+    "failed request itself is never judged (also not when the library swallowed the error), only what "
+    "comes after it",
+    "C16 / C15: list arguments may be list objects the simulated caller keeps (and, C16, changes "
+    "afterwards); what a call supplied is what the list held when the call was made",
     "AssertionError (and subclasses) = verdict 'fail'; any other Exception = no verdict / rejection",
     "seeded search samples the schedule/fault space; a clean run is evidence, not proof",
 ]
@@ -139,7 +148,9 @@ def write(prop, tier, seed, run, out, samples, known_hit, reported, source):
                      "warnings machinery"],
             "stub": ["order of directory listings (os.listdir / os.scandir wrapper; entries are real)"]
                     + (["object addresses as seen through id() (simulated slots, deterministic reuse)",
-                        "cancellation of a call (exception injected by a trace function at a seeded line)"]
+                        "cancellation of a call (exception injected by a trace function at a seeded line)",
+                        "disk errors (open / listdir wrappers raise OSError once at a seeded operation; "
+                        "all other reads and listings are the real ones)"]
                        if prop == "C15" else []),
         },
         "source": source,
